@@ -103,6 +103,26 @@ func runHelper(name, params, streams string) (result string) {
 		cs = []<-chan int{helper.KeepPositives(in(0))}
 	case "KeepNegatives":
 		cs = []<-chan int{helper.KeepNegatives(in(0))}
+	// integer element type through the dividing helpers (Go integer division truncates toward zero)
+	case "DivideI":
+		cs = []<-chan int{helper.Divide(in(0), in(1))}
+	case "DivideByI":
+		cs = []<-chan int{helper.DivideBy(in(0), p(0))}
+	case "ChangeRatioI":
+		cs = []<-chan int{helper.ChangeRatio(in(0), p(0))}
+	case "ChangePercentI":
+		cs = []<-chan int{helper.ChangePercent(in(0), p(0))}
+	// two inputs that are branches of one Duplicate, the remaining input independent (and possibly shorter):
+	// the zip must still let the shared source be consumed to its end
+	case "OperateShared":
+		d := helper.Duplicate(in(0), 2)
+		cs = []<-chan int{helper.Operate(d[0], d[1], func(x, y int) int { return x*3 + y })}
+	case "Operate3Shared":
+		d := helper.Duplicate(in(0), 2)
+		cs = []<-chan int{helper.Operate3(d[0], d[1], in(1), func(x, y, z int) int { return x*5 + y*3 + z })}
+	case "Operate3SharedLast":
+		d := helper.Duplicate(in(1), 2)
+		cs = []<-chan int{helper.Operate3(in(0), d[0], d[1], func(x, y, z int) int { return x*5 + y*3 + z })}
 	default:
 		return "ERR unknown-helper"
 	}
